@@ -2539,6 +2539,107 @@ fn run(v: &Value) -> Result<String, String> {
             outcome?;
             Ok(format!("{done} exit causes / phases held (inline handler during cancel, parked off-reader handler when an inline handler panics, cancel with a full outbound queue on an adopted stream, drain deadline with a straggler, graceful drain of three connections, clean close, abrupt drop, text frame, malformed frame, inline handler panic, connect-callback panic, embedder cancel, parked off-reader handler, failed handshake)"))
         }
+        "client_id_sequence" => {
+            // Bounded stand-in for C04's "all request ids on one connection are distinct" on the sequential side: one
+            // caller alternates notifies and calls (every public request-issuing entry point used by the other stand-ins);
+            // the server records the id of every frame. Deterministic; the concurrent side is client_id_stress.
+            use std::io::Write as _;
+            let listener = std::net::TcpListener::bind("127.0.0.1:0").map_err(|e| e.to_string())?;
+            let addr = listener.local_addr().unwrap();
+            let (tx, rx) = std::sync::mpsc::channel::<(u64, u8)>();
+            std::thread::spawn(move || {
+                for conn in listener.incoming() {
+                    let Ok(stream) = conn else { break };
+                    let tx = tx.clone();
+                    std::thread::spawn(move || {
+                        let mut reader = std::io::BufReader::new(stream.try_clone().unwrap());
+                        let mut writer = std::io::BufWriter::new(stream);
+                        while let Ok(req) = repe::read_message(&mut reader) {
+                            let _ = tx.send((req.header.id, req.header.notify));
+                            if req.header.notify != 0 { continue; }
+                            let resp = repe::Message::builder().id(req.header.id).body_json(&serde_json::json!("ok")).unwrap().build();
+                            if repe::write_message(&mut writer, &resp).is_err() || writer.flush().is_err() { break; }
+                        }
+                    });
+                }
+            });
+            let rt = tokio::runtime::Builder::new_current_thread().enable_all().build().unwrap();
+            let mut total = 0;
+            for which in ["blocking", "async"] {
+                if which == "blocking" {
+                    let c = repe::Client::connect(addr).map_err(|e| e.to_string())?;
+                    for i in 0..6 {
+                        c.notify_json("/n", &serde_json::json!(i)).map_err(|e| e.to_string())?;
+                        c.call_json("/c", &serde_json::json!(i)).map_err(|e| e.to_string())?;
+                        c.notify_with_formats("/raw", 1, Some(b"x"), 0).map_err(|e| e.to_string())?;
+                        c.notify_typed_json("/t", &i).map_err(|e| e.to_string())?;
+                    }
+                    let _ = c.batch_json(vec![("/b1".to_string(), serde_json::json!(1)), ("/b2".to_string(), serde_json::json!(2))]);
+                } else {
+                    rt.block_on(async {
+                        let c = repe::AsyncClient::connect(addr).await.map_err(|e| e.to_string())?;
+                        for i in 0..6 {
+                            c.notify_json("/n", &serde_json::json!(i)).await.map_err(|e| e.to_string())?;
+                            c.call_json("/c", &serde_json::json!(i)).await.map_err(|e| e.to_string())?;
+                            c.notify_with_formats("/raw", 1, Some(b"x"), 0).await.map_err(|e| e.to_string())?;
+                            c.notify_typed_json("/t", &i).await.map_err(|e| e.to_string())?;
+                        }
+                        let _ = c.batch_json(vec![("/b1".to_string(), serde_json::json!(1)), ("/b2".to_string(), serde_json::json!(2))]).await;
+                        Ok::<(), String>(())
+                    })?;
+                }
+                let mut ids = Vec::new();
+                while let Ok(x) = rx.recv_timeout(std::time::Duration::from_millis(300)) { ids.push(x); }
+                if ids.len() != 26 { return Err(format!("{which} client: the server saw {} frames, 26 were sent", ids.len())); }
+                let mut seen = std::collections::HashMap::new();
+                for (k, (id, notify)) in ids.iter().enumerate() {
+                    if let Some(prev) = seen.insert(*id, k) { return Err(format!("{which} client: request id {id} was issued twice on one connection (frames {prev} and {k}; notify flags {} and {notify})", ids[prev].1)); }
+                }
+                total += ids.len();
+            }
+            Ok(format!("{total} ids on two connections, all distinct"))
+        }
+        "ws_notify_vs_pending" => {
+            // Bounded stand-in for C04 on the WebSocket client: a server-pushed frame with a non-zero notify flag (1, 2, 255)
+            // that reuses the id of a call in flight must never be delivered to that call, with or without a notification
+            // subscriber; the call gets the real response that follows.
+            use repe::tokio_tungstenite::tungstenite::Message as WsMessage;
+            use futures_util::{SinkExt, StreamExt};
+            let rt = tokio::runtime::Builder::new_multi_thread().worker_threads(2).enable_all().build().unwrap();
+            let out: Result<String, String> = rt.block_on(async {
+                let mut cases = 0;
+                for subscribe in [false, true] { for flag in [1u8, 2, 255] {
+                    let listener = tokio::net::TcpListener::bind("127.0.0.1:0").await.map_err(|e| e.to_string())?;
+                    let addr = listener.local_addr().unwrap();
+                    tokio::spawn(async move {
+                        let Ok((stream, _)) = listener.accept().await else { return };
+                        let Ok(mut ws) = repe::tokio_tungstenite::accept_async(stream).await else { return };
+                        while let Some(Ok(frame)) = ws.next().await {
+                            let WsMessage::Binary(b) = frame else { continue };
+                            let Ok(req) = repe::Message::from_slice_exact(&b) else { continue };
+                            // first a push that reuses the call's id, then the real answer
+                            let mut push = repe::Message::builder().id(req.header.id).query_str("/push").body_json(&serde_json::json!({"kind": "push"})).unwrap().build();
+                            push.header.notify = flag;
+                            let _ = ws.send(WsMessage::Binary(push.to_vec().into())).await;
+                            let resp = repe::Message::builder().id(req.header.id).query_bytes(req.query.clone()).body_json(&serde_json::json!({"kind": "answer"})).unwrap().build();
+                            let _ = ws.send(WsMessage::Binary(resp.to_vec().into())).await;
+                        }
+                    });
+                    let client = repe::WebSocketClient::connect(&format!("ws://{addr}/repe")).await.map_err(|e| e.to_string())?;
+                    let mut sub = if subscribe { Some(client.subscribe_notifies().map_err(|e| format!("{e:?}"))?) } else { None };
+                    let v = tokio::time::timeout(std::time::Duration::from_secs(5), client.call_json("/a", &serde_json::json!({}))).await.map_err(|_| format!("subscriber={subscribe} flag={flag}: the call hung"))?.map_err(|e| format!("subscriber={subscribe} flag={flag}: the call failed: {e}"))?;
+                    if v["kind"] != "answer" { return Err(format!("subscriber={subscribe}, notify flag {flag}: a pushed frame that reuses the id of a call in flight was delivered to that call as its response ({v})")); }
+                    if let Some(rx) = sub.as_mut() {
+                        let got = tokio::time::timeout(std::time::Duration::from_secs(5), rx.recv()).await.map_err(|_| format!("flag={flag}: the subscriber never saw the push"))?;
+                        if got.is_none() { return Err(format!("flag={flag}: the notification stream ended")); }
+                    }
+                    cases += 1;
+                } }
+                Ok(format!("{cases} push-vs-pending cases held"))
+            });
+            rt.shutdown_background();
+            out
+        }
         other => panic!("unknown replay entry `{other}`"),
     }
 }
